@@ -126,16 +126,18 @@ func (store *fileStore) Reset() error {
 	if err := store.Close(); err != nil {
 		return errors.Wrap(err, "close")
 	}
-	if err := removeFile(store.bodyFname); err != nil {
+	// The order matters when the process dies half way: the outgoing counter goes before the
+	// messages it vouches for, and the index before the bytes it points into.
+	if err := removeFile(store.senderSeqNumsFname); err != nil {
 		return err
 	}
 	if err := removeFile(store.headerFname); err != nil {
 		return err
 	}
-	if err := removeFile(store.sessionFname); err != nil {
+	if err := removeFile(store.bodyFname); err != nil {
 		return err
 	}
-	if err := removeFile(store.senderSeqNumsFname); err != nil {
+	if err := removeFile(store.sessionFname); err != nil {
 		return err
 	}
 	if err := removeFile(store.targetSeqNumsFname); err != nil {
